@@ -18,6 +18,7 @@ import (
 	"crypto/sha256"
 	"encoding/hex"
 	"fmt"
+	"regexp"
 	"sort"
 	"strings"
 	"sync"
@@ -159,6 +160,8 @@ type runner struct {
 	out  *res.Result
 	repo string
 	mu   sync.Mutex
+
+	oofCache map[string]bool
 }
 
 // compare judges one pair (reference render, other render) of the same document.
@@ -187,11 +190,46 @@ func (rn *runner) compare(scen string, d Doc, ref, got Trace, detail string) boo
 	i, la, lb, op := firstDiff(a, b)
 	if key == "" {
 		key = "call:" + op
+		if rn.outOfFlowOnly(d) {
+			key = "out-of-flow-order"
+		}
 	}
 	rn.out.Add(res.Finding{Kind: "judge", Op: "judge:" + scen, Input: d.HTML, Impl: lb, Model: la,
 		Reason: fmt.Sprintf("backend call #%d differs between two renders of the same document (%s): reference %q, this render %q", i, detail, la, lb),
 		Key:    key, Seed: d.Seed})
 	return false
+}
+
+var oofRe = regexp.MustCompile(`float:\s*(left|right)|position:\s*absolute`)
+
+// outOfFlowOnly attributes an unstable document to KF15-2 (order of the out-of-flow boxes broken
+// across a page) by ablation: the document has at least two floats / absolutely positioned boxes
+// and the same document with all of them put back in flow renders identically 6 times.
+// Callers hold rn.mu.
+func (rn *runner) outOfFlowOnly(d Doc) bool {
+	if v, ok := rn.oofCache[d.HTML]; ok {
+		return v
+	}
+	v := false
+	if len(oofRe.FindAllStringIndex(d.HTML, 2)) >= 2 {
+		abl := oofRe.ReplaceAllStringFunc(d.HTML, func(m string) string {
+			if strings.HasPrefix(m, "float") {
+				return "float:none"
+			}
+			return "position:static"
+		})
+		first := renderTrace(abl, nil, rn.repo)
+		v = first.Crash == ""
+		for i := 0; v && i < 5; i++ {
+			v = renderTrace(abl, nil, rn.repo).Canon == first.Canon
+		}
+		rn.out.Hit("ablation:out-of-flow")
+	}
+	if rn.oofCache == nil {
+		rn.oofCache = map[string]bool{}
+	}
+	rn.oofCache[d.HTML] = v
+	return v
 }
 
 type hashes struct{ raw, canon, crash string }
@@ -256,7 +294,7 @@ func Run(tier string, seed uint64, modelPath, repo string, out *res.Result) erro
 		// repeat with the font configuration shared by all sequential repeats (warm caches)
 		rn.compare("repeat", d, ref, renderTrace(d.HTML, shared, repo), "same process, font configuration shared with earlier renders")
 		// history: a few OTHER documents in between, then again
-		for k, n := 0, hr.Range(1, 3); k < n && len(ok) > 1; k++ {
+		for k, n := 0, hr.Range(0, 2); k < n && len(ok) > 1; k++ {
 			o := docs[ok[hr.Intn(len(ok))]]
 			if o.ID != d.ID {
 				renderTrace(o.HTML, shared, repo)
